@@ -200,14 +200,17 @@ fn disk_bounds_int<T: IntSc + std::ops::Add<Output = T> + std::ops::Sub<Output =
     set_range_assumed();
     let want: Vec<(T, T)> = c.iter().map(|ci| (*ci - r, *ci + r)).collect();
     set_range_checked();
-    let (mn, mx) = if three {
+    // no panic is documented: natively an overflow shows as the dev-profile panic, symbolically as a refuted range obligation
+    let got = call::<T, (Vec<T>, Vec<T>)>(|| if three {
         let b = Sphere::new(Vec3::new(c[0], c[1], c[2]), r).aabb();
         (b.min.ent(), b.max.ent())
     } else {
         let b = Disk::new(Vec2::new(c[0], c[1]), r).aabr();
         (b.min.ent(), b.max.ent())
-    };
-    goal("law/bounds = centre -+ radius per axis", and((0..n).flat_map(|i| vec![eq(mn[i], want[i].0), eq(mx[i], want[i].1)]).collect()));
+    }, lit(false));
+    if let Some((mn, mx)) = got {
+        goal("law/bounds = centre -+ radius per axis", and((0..n).flat_map(|i| vec![eq(mn[i], want[i].0), eq(mx[i], want[i].1)]).collect()));
+    }
 }
 pub fn register_c16(v: &mut Vec<Scenario>) {
     for three in [false, true] {
